@@ -170,7 +170,22 @@ func (e *Engine) evalPure2(s *State, fn *ssa.Function, args []Val, bind []Val, p
 	sub.ret, sub.done, sub.dead = nil, false, false
 	sub.spec++
 	n0, d0 := len(s.pc), len(s.defs)
+	q0 := len(s.qfacts)
 	fins := e.run(sub, 1)
+	for _, f := range fins {
+		for _, qf := range f.qfacts[q0:] {
+			dup := false
+			for _, x := range s.qfacts[q0:] {
+				if x.S == qf.S {
+					dup = true
+					break
+				}
+			}
+			if !dup {
+				s.qfacts = append(s.qfacts, qf)
+			}
+		}
+	}
 	seen := map[string]bool{}
 	var res Term
 	first := true
@@ -412,10 +427,10 @@ func (e *Engine) step(s *State) []*State {
 		e.oblig(s, "safe.make", and(ile(intT(0), n), ile(n, c)))
 		r := e.newRef(s)
 		et := x.Type().Underlying().(*types.Slice).Elem()
-		so := elemSort(et)
-		nm := "M_" + sortTag(so)
-		m := e.heapArr(s, nm, refArrSort(arrSort(so)))
-		e.hset(s, nm, e.name(s, sto(m, r, constArr(so))), HWrite{Ref: r, Val: constArr(so), Whole: true})
+		for _, l := range elemLeaves(et, elemPrefix(et)) {
+			m := e.leafArr(s, l)
+			e.hset(s, l.name, e.name(s, sto(m, r, constArr(l.sort))), HWrite{Ref: r, Val: constArr(l.sort), Whole: true})
+		}
 		f.env[x] = SliceV{r, intT(0), n, c, et}
 	case *ssa.MakeMap:
 		mt := x.Type().Underlying().(*types.Map)
@@ -823,12 +838,90 @@ func (e *Engine) enter(s *State, f *Frame, from, to *ssa.BasicBlock) {
 	}
 	if back {
 		evalInvs("preserved", false)
+		e.loopFrameCheck(s, f, ann, fmt.Sprintf("%s.loop%d", f.fn.Name(), ord))
 		s.dead, s.done = true, true
 		return
 	}
 	evalInvs("entry", false)
-	e.havoc(s, f, to)
+	e.havoc(s, f, to, ann)
 	evalInvs("", true)
+}
+
+// loopFrame records a cut loop: what was allocated when it was entered and which objects its body may write.
+type loopFrame struct {
+	allocL Term
+	W      []Term   // identities (at loop entry) of the objects named by `modifies=`
+	cells  []string // the local variables named by `modifies=`
+	fn     *ssa.Function
+}
+
+// cellRef gives the object identity a local variable (slice, pointer or map) currently refers to.
+func (e *Engine) cellRef(s *State, f *Frame, name string) (Term, bool) {
+	var v Val
+	if c, ok := f.entry["$cell:"+name]; ok {
+		v = s.cellv[c.(*Cell)]
+	} else if p, ok := f.entry["$ptr:"+name]; ok {
+		s.spec++
+		v = e.load(s, p.(PtrV), p.(PtrV).Elem)
+		s.spec--
+	} else {
+		for i, p := range f.fn.Params {
+			if p.Name() == name {
+				_ = i
+				v = f.env[p]
+			}
+		}
+	}
+	switch x := v.(type) {
+	case SliceV:
+		return x.Ref, true
+	case PtrV:
+		if x.Nil {
+			return refT(0), true
+		}
+		return x.Ref, true
+	case MapV:
+		return x.Ref, true
+	}
+	return Term{}, false
+}
+
+// loopFrameCheck (at the back edge): every heap write of the body went to an object that the loop owns - one
+// named by modifies= at loop entry, or one allocated after the loop was entered - and every modifies= variable
+// still refers to such an object.
+func (e *Engine) loopFrameCheck(s *State, f *Frame, ann *LoopAnn, tag string) {
+	if len(s.lframes) == 0 {
+		return
+	}
+	lf := s.lframes[len(s.lframes)-1]
+	allowed := func(r Term) Term {
+		if r.C != nil && r.C.Sign() == 0 {
+			return boolT(true)
+		}
+		ok := not(sel(lf.allocL, r, "Bool"))
+		for _, w := range lf.W {
+			if sameTerm(w, r) {
+				return boolT(true)
+			}
+			ok = or(ok, eq(w, r))
+		}
+		return ok
+	}
+	seen := map[string]bool{}
+	for nm, l := range s.hlog {
+		for _, w := range l.W {
+			if strings.HasPrefix(w.Ref.S, "ref!") || seen[nm+w.Ref.S] {
+				continue
+			}
+			seen[nm+w.Ref.S] = true
+			e.oblig(s, tag+".frame["+nm+"]", allowed(w.Ref))
+		}
+	}
+	for _, c := range lf.cells {
+		if r, ok := e.cellRef(s, f, c); ok {
+			e.oblig(s, tag+".owned["+c+"]", or(eq(r, refT(0)), allowed(r)))
+		}
+	}
 }
 
 func (e *Engine) lookupFunc(p *ssa.Package, name string) *ssa.Function {
@@ -869,7 +962,7 @@ func (e *Engine) specArgs(s *State, f *Frame, fn *ssa.Function, results []Val) [
 }
 
 // havoc forgets everything the loop may write.
-func (e *Engine) havoc(s *State, f *Frame, h *ssa.BasicBlock) {
+func (e *Engine) havoc(s *State, f *Frame, h *ssa.BasicBlock, ann *LoopAnn) {
 	body := loopBlocks(h)
 	cells := map[*Cell]bool{}
 	heapAll := false
@@ -911,6 +1004,24 @@ func (e *Engine) havoc(s *State, f *Frame, h *ssa.BasicBlock) {
 			}
 		}
 	}
+	// identities of the modifies= objects at loop entry (before anything is forgotten)
+	lf := loopFrame{allocL: s.alloc, fn: f.fn}
+	if ann != nil {
+		for _, c := range ann.Modifies {
+			if r, ok := e.cellRef(s, f, c); ok {
+				lf.W = append(lf.W, r)
+				lf.cells = append(lf.cells, c)
+			} else {
+				panic("loop modifies= names " + c + ", which is not a slice, pointer or map variable in scope")
+			}
+		}
+	}
+	if heapAll {
+		// the allocation map only grows
+		na := e.declare(s, "alloc", "(Array Int Bool)")
+		e.axiom(s, na, Term{S: fmt.Sprintf("(forall ((r!a Ref)) (=> (select %s r!a) (select %s r!a)))", lf.allocL.S, na.S), Sort: "Bool"})
+		s.alloc = na
+	}
 	for c := range cells {
 		s.cellv[c] = e.symbolic(s, c.Name, c.T)
 	}
@@ -929,10 +1040,32 @@ func (e *Engine) havoc(s *State, f *Frame, h *ssa.BasicBlock) {
 		s.epoch = e.n + 1
 		e.n++
 		for nm := range s.heap {
-			s.heap[nm] = e.declare(s, nm, e.heapSorts[nm])
-			s.hlog[nm] = &HLog{Base: s.heap[nm]}
+			e.havocHeapArr(s, nm, lf)
 		}
+		s.lframes = append(append([]loopFrame(nil), s.lframes...), lf)
+		// the loop-owned variables refer to nil, to the object they had at loop entry, or to one allocated since
+		for i, c := range lf.cells {
+			if r, ok := e.cellRef(s, f, c); ok {
+				e.assume(s, or(eq(r, refT(0)), eq(r, lf.W[i]), not(sel(lf.allocL, r, "Bool"))))
+			}
+		}
+		e.globalInvariants(s, e.curT) // facts about package-level variables survive (nobody outside init writes them)
 	}
+}
+
+// havocHeapArr replaces heap array nm by a fresh version that agrees with the old one on every object that was
+// allocated when the loop was entered and is not in the loop's modifies set.
+func (e *Engine) havocHeapArr(s *State, nm string, lf loopFrame) {
+	old := s.heap[nm]
+	fresh := e.declare(s, nm, e.heapSorts[nm])
+	cond := fmt.Sprintf("(select %s r!f)", lf.allocL.S)
+	for _, w := range lf.W {
+		cond = fmt.Sprintf("(and %s (not (= r!f %s)))", cond, w.S)
+	}
+	e.axiom(s, fresh, Term{S: fmt.Sprintf("(forall ((r!f Ref)) (! (=> %s (= (select %s r!f) (select %s r!f))) :pattern ((select %s r!f))))", cond, fresh.S, old.S, fresh.S), Sort: "Bool"})
+	s.heap[nm] = fresh
+	s.hlog[nm] = &HLog{Base: fresh}
+	e.mapValWT(s, nm, fresh, s.alloc)
 }
 
 // call handles builtins, intrinsics, and inlines static callees. Returns whether to advance.
@@ -1026,8 +1159,14 @@ func (e *Engine) call(s *State, f *Frame, cc *ssa.CallCommon, x ssa.Value, defer
 // callFn dispatches a call to a known function: intrinsics, stubs, contracts, or inlining.
 func (e *Engine) callFn(s *State, f *Frame, fn *ssa.Function, args []Val, bind []Val, x ssa.Value, deferred bool) bool {
 	name := fn.Name()
-	if fn.Pkg != nil && strings.HasSuffix(fn.Pkg.Pkg.Path(), "internal/verifspec") {
+	if name == "init" && fn.Synthetic != "" && len(s.frames) > 0 {
+		return true // the initialiser of an imported package: it cannot name this package's variables
+	}
+	if op := originPkg(fn); op != nil && strings.HasSuffix(op.Pkg.Path(), "internal/verifspec") {
 		name = "vs" + name
+		if i := strings.Index(name, "["); i > 0 {
+			name = name[:i] // an instance of a generic helper
+		}
 	}
 	if strings.HasPrefix(name, "vsTrace") {
 		if v, ok := e.traceIntrinsic(s, name, args); ok {
@@ -1060,6 +1199,7 @@ func (e *Engine) callFn(s *State, f *Frame, fn *ssa.Function, args []Val, bind [
 			sub.hlog[k] = &HLog{Base: v.Base, W: append([]HWrite(nil), v.W...)}
 		}
 		sub.epoch = 0
+		sub.lframes = nil
 		d0 := len(sub.defs)
 		r := e.evalPure(sub, cl.Fn, nil, cl.Bind)
 		s.defs = append(s.defs, sub.defs[d0:]...)
@@ -1131,7 +1271,10 @@ func (e *Engine) callFn(s *State, f *Frame, fn *ssa.Function, args []Val, bind [
 			kv = StrV{T: Term{S: bv, Sort: ks}}
 		}
 		s.quant++
+		q0 := len(s.qfacts)
 		body := e.evalPure(s, cl.Fn, []Val{kv}, cl.Bind).(Term)
+		body = implies(and(s.qfacts[q0:]...), body)
+		s.qfacts = s.qfacts[:q0]
 		s.quant--
 		f.env[x] = e.name(s, Term{S: fmt.Sprintf("(forall ((%s %s)) %s)", bv, ks, body.S), Sort: "Bool"})
 		return true
@@ -1178,7 +1321,7 @@ func (e *Engine) callFn(s *State, f *Frame, fn *ssa.Function, args []Val, bind [
 		return true
 	}
 	if fn.String() == "errors.New" || fn.String() == "fmt.Errorf" {
-		f.env[x] = IfaceV{IsNil: boolT(false)}
+		f.env[x] = IfaceV{IsNil: boolT(false), V: e.newRef(s)} // a fresh, non-nil error value
 		return true
 	}
 	if c := e.contracts[fn.String()]; c != nil && s.spec == 0 {
@@ -1245,7 +1388,14 @@ func (e *Engine) quant(s *State, forall bool, lo, hi Term, cl FuncV) Term {
 	}
 	bv := e.fresh("q")
 	s.quant++
+	q0 := len(s.qfacts)
 	body := e.evalPure(s, cl.Fn, []Val{Term{S: bv, Sort: ISort(), C: nil}}, cl.Bind).(Term)
+	if forall {
+		body = implies(and(s.qfacts[q0:]...), body)
+	} else {
+		body = and(append(append([]Term(nil), s.qfacts[q0:]...), body)...)
+	}
+	s.qfacts = s.qfacts[:q0]
 	s.quant--
 	rng := and(ile(lo, Term{S: bv, Sort: ISort(), C: nil}), ilt(Term{S: bv, Sort: ISort(), C: nil}, hi))
 	var q Term
@@ -1309,36 +1459,56 @@ func (e *Engine) mapPresentArr(s *State, m MapV) Term {
 
 // appendB models append(h, p...) exactly: in place when capacity allows, otherwise a fresh array.
 func (e *Engine) appendB(s *State, f *Frame, x ssa.Value, h SliceV, pv Val) bool {
-	p := pv.(SliceV)
-	so := elemSort(h.Elem)
-	nm := "M_" + sortTag(so)
+	var p SliceV
+	switch v := pv.(type) {
+	case SliceV:
+		p = v
+	case StrV: // append([]byte, string...)
+		p = e.strToBytes(s, v)
+	default:
+		panic(fmt.Sprintf("append of %T", pv))
+	}
+	leaves := elemLeaves(h.Elem, elemPrefix(h.Elem))
 	n := iadd(h.Len, p.Len)
 	fits := ile(n, h.Cap)
 	mk := func(st *State, fresh bool) {
-		m := e.heapArr(st, nm, refArrSort(arrSort(so)))
-		na := e.declare(st, "ap", arrSort(so))
-		j := "j!" + e.fresh("a")
-		jt := Term{S: j, Sort: ISort()}
-		srcP := sel(sel(m, p.Ref, arrSort(so)), iadd(isub(jt, Term{S: "BASE", Sort: ISort()}), p.Off), so)
-		_ = srcP
-		if !fresh {
-			start := iadd(h.Off, h.Len)
-			in := and(ile(start, jt), ilt(jt, iadd(start, p.Len)))
-			rhs := ite(in, sel(sel(m, p.Ref, arrSort(so)), iadd(isub(jt, start), p.Off), so), sel(sel(m, h.Ref, arrSort(so)), jt, so))
-			e.axiom(st, na, Term{S: fmt.Sprintf("(forall ((%s %s)) (= (select %s %s) %s))", j, ISort(), na.S, j, rhs.S), Sort: "Bool"})
-			e.hset(st, nm, e.name(st, sto(m, h.Ref, na)), HWrite{Ref: h.Ref, Val: na, Whole: true})
-			e.top(st).env[x] = SliceV{h.Ref, h.Off, n, h.Cap, h.Elem}
-			return
+		var r, cp Term
+		if fresh {
+			r = e.newRef(st)
+			cp = e.declare(st, "cap", ISort())
+			e.assume(st, ile(n, cp))
 		}
-		r := e.newRef(st)
-		inH := and(ile(intT(0), jt), ilt(jt, h.Len))
-		inP := and(ile(h.Len, jt), ilt(jt, n))
-		rhs := ite(inH, sel(sel(m, h.Ref, arrSort(so)), iadd(h.Off, jt), so), ite(inP, sel(sel(m, p.Ref, arrSort(so)), iadd(isub(jt, h.Len), p.Off), so), zeroOf(so)))
-		e.axiom(st, na, Term{S: fmt.Sprintf("(forall ((%s %s)) (= (select %s %s) %s))", j, ISort(), na.S, j, rhs.S), Sort: "Bool"})
-		e.hset(st, nm, e.name(st, sto(m, r, na)), HWrite{Ref: r, Val: na, Whole: true})
-		cp := e.declare(st, "cap", ISort())
-		e.assume(st, ile(n, cp))
-		e.top(st).env[x] = SliceV{r, intT(0), n, cp, h.Elem}
+		one := p.Len.C != nil && p.Len.C.Int64() == 1 && !fresh
+		for _, l := range leaves {
+			so := l.sort
+			m := e.leafArr(st, l)
+			if one { // append(h, v) in place: a single store, no quantifier
+				v := e.readLeaf(st, l, p.Ref, p.Off)
+				e.writeLeaf(st, l, h.Ref, iadd(h.Off, h.Len), v)
+				continue
+			}
+			na := e.declare(st, "ap", arrSort(so))
+			j := "j!" + e.fresh("a")
+			jt := Term{S: j, Sort: ISort()}
+			if !fresh {
+				start := iadd(h.Off, h.Len)
+				in := and(ile(start, jt), ilt(jt, iadd(start, p.Len)))
+				rhs := ite(in, sel(sel(m, p.Ref, arrSort(so)), iadd(isub(jt, start), p.Off), so), sel(sel(m, h.Ref, arrSort(so)), jt, so))
+				e.axiom(st, na, Term{S: fmt.Sprintf("(forall ((%s %s)) (= (select %s %s) %s))", j, ISort(), na.S, j, rhs.S), Sort: "Bool"})
+				e.hset(st, l.name, e.name(st, sto(m, h.Ref, na)), HWrite{Ref: h.Ref, Val: na, Whole: true})
+				continue
+			}
+			inH := and(ile(intT(0), jt), ilt(jt, h.Len))
+			inP := and(ile(h.Len, jt), ilt(jt, n))
+			rhs := ite(inH, sel(sel(m, h.Ref, arrSort(so)), iadd(h.Off, jt), so), ite(inP, sel(sel(m, p.Ref, arrSort(so)), iadd(isub(jt, h.Len), p.Off), so), zeroOf(so)))
+			e.axiom(st, na, Term{S: fmt.Sprintf("(forall ((%s %s)) (= (select %s %s) %s))", j, ISort(), na.S, j, rhs.S), Sort: "Bool"})
+			e.hset(st, l.name, e.name(st, sto(m, r, na)), HWrite{Ref: r, Val: na, Whole: true})
+		}
+		if fresh {
+			e.top(st).env[x] = SliceV{r, intT(0), n, cp, h.Elem}
+		} else {
+			e.top(st).env[x] = SliceV{h.Ref, h.Off, n, h.Cap, h.Elem}
+		}
 	}
 	if fits.C != nil {
 		mk(s, fits.C.Sign() == 0)
@@ -1430,6 +1600,16 @@ func (e *Engine) runPar(init *State, base int) []*State {
 		panic(failure)
 	}
 	return fin
+}
+
+func originPkg(fn *ssa.Function) *ssa.Package {
+	if fn.Pkg != nil {
+		return fn.Pkg
+	}
+	if o := fn.Origin(); o != nil {
+		return o.Pkg
+	}
+	return nil
 }
 
 // inlinablePkg: callees from the repository itself and from a short allow-list of pure std packages are inlined
